@@ -1042,7 +1042,7 @@ def comm_catalogue(tier):
 
 def cons_molecules(tier):
     if tier == "quick":
-        return ["H2", "H3+", "H3", "H4"]
+        return ["H2", "H3+", "H3", "H4", "H4triplet"]
     return ["H2", "H3+", "H3", "H3-", "H4", "H4+", "H4triplet", "H2_631g"]
 
 
